@@ -239,7 +239,7 @@ type tCfg struct {
 	term    string
 	slowK   int
 	slowUs  int
-	cutKind string // "-", "out", "in", "cancel"
+	cutKind string // "-", "out", "in", "cancel", "deadline" (the subscription context carries a deadline that expires after cutArg µs)
 	cutArg  int
 }
 
@@ -355,6 +355,16 @@ func runTimed(c *Case) string {
 		return "unsupported"
 	}
 
+	// cut=deadline:T — the subscription context EXPIRES by itself T µs from now (context.WithDeadline): for the library this is a
+	// cancellation at that instant (an operator that watches its context raises the context's error then, not a value)
+	var deadlineUs int64
+	if cfg.cutKind == "deadline" {
+		cancel()
+		at := time.Now().Add(us(cfg.cutArg))
+		deadlineUs = nowUs() + int64(cfg.cutArg)
+		ctx, cancel = context.WithDeadline(context.Background(), at)
+		defer cancel()
+	}
 	// Timer (and a mutant that blocks) waits inside Subscribe: subscribe on a goroutine of its own
 	subStamp := nowUs()
 	subscribed := make(chan struct{})
@@ -373,6 +383,15 @@ func runTimed(c *Case) string {
 	cutDone := make(chan struct{})
 	var cutStr = "-"
 	switch cfg.cutKind {
+	case "deadline":
+		go func() {
+			defer close(cutDone)
+			select {
+			case <-ctx.Done():
+				cutStr = fmt.Sprintf("c:%d:%d", deadlineUs, nowUs())
+			case <-time.After(timedGuard + us(cfg.cutArg)):
+			}
+		}()
 	case "out", "cancel":
 		go func() {
 			defer close(cutDone)
@@ -415,7 +434,7 @@ func runTimed(c *Case) string {
 	// 2. where the model says the stream must end by itself, wait for the terminal (guard only)
 	mustEnd := false
 	switch {
-	case cfg.cutKind == "cancel" && timedWatchesCtx[cfg.op]:
+	case (cfg.cutKind == "cancel" || cfg.cutKind == "deadline") && timedWatchesCtx[cfg.op]:
 		mustEnd = true
 	case cfg.op == "Timer" && cfg.cutKind == "-":
 		mustEnd = true
@@ -667,6 +686,11 @@ func genTimed(tier string, seed int64, only string) []*Case {
 		add("IntervalWithInitial", "d", itoa(10*d), "d2", "500", "cut", "out:"+itoa(4*d))
 		add("Timer", "d", ds, "cut", "-")
 		add("Timer", "d", ds, "cut", "cancel:"+itoa(d/2))
+		add("Timer", "d", itoa(4*d), "cut", "deadline:"+itoa(d))
+		add("Timer", "d", itoa(6*d), "cut", "deadline:"+itoa(d/2))
+		add("Interval", "d", itoa(3*d), "cut", "deadline:"+itoa(d))
+		add("IntervalWithInitial", "d", itoa(3*d), "d2", itoa(2*d), "cut", "deadline:"+itoa(d))
+		add("RangeWithInterval", "d", itoa(3*d), "a", "0", "b", "4", "cut", "deadline:"+itoa(d))
 		add("RangeWithInterval", "d", ds, "a", "3", "b", "6", "cut", "-")
 		add("RangeWithInterval", "d", ds, "a", "5", "b", "2", "cut", "-")
 		add("RangeWithInterval", "d", ds, "a", "4", "b", "4", "cut", "-")
